@@ -9,7 +9,7 @@ def scratch_copy():
     return d
 
 def main():
-    patch = sys.argv[1]
+    patch = os.path.abspath(sys.argv[1])
     pids = sys.argv[2:]
     d = tempfile.mkdtemp(prefix='fpq_scratch_')
     r = os.path.join(d, 'r')
